@@ -326,6 +326,7 @@ def run(ctx, rep_):
     self_type_is_its_class(F, rep_)
     open_coercion_compares_with_the_result(F, rep_)
     strings_have_no_slots(F, rep_)
+    only_methods_get_the_object(F, rep_)
     # a variable a function reads is captured: a dependency is compared with the supplies before its capture depth is raised (shared with C07)
     from props import _netdeps
     _netdeps.run(F, rep_, "C02.net-dependencies")
@@ -968,3 +969,49 @@ def strings_have_no_slots(F, rep, rule="C02.str-slot"):
         rep.ob(rule, "%s is refused when s is a str (a string has no slots to write through)" % label, "ok" if ok else "violated",
                "" if ok else "no test of the receiver's type against str on the way to accepting the target: the program compiles and ptr_mut / bin_op_assign fail at run time "
                "(`expected a mutable heap primitive`)", where, fn=g.path, key="%s|%s" % (rule, "assign" if "op=" not in label else "op-assign"))
+
+
+def only_methods_get_the_object(F, rep, rule="C02.method-self"):
+    """`obj.m(args)` passes obj as the first argument when m is a *method* (a function type built as associated); a function that is merely stored
+    in a field (`cb: fn(int) -> int`) takes its declared arguments only.  The flag `assume_self_is_on_top` of a method-call link says which it
+    is: every value that reaches the field of DotLookupOption::FunctionCall is the constant false (calls through a module) or comes from
+    FunctionType::is_associated_fn - a constant `true` makes `b.cb(21)` call cb(b, 21), which type-checks and fails in the callee
+    (`<Object * Int> is invalid`)."""
+    g = F.fn("compiler::parser::Parser::dot_chain_option")
+    DLO = "compiler::ast::dot_lookup::DotLookupOption"
+    a = F.adt(DLO)
+    if g is None or a is None:
+        raise AnchorMissing("Parser::dot_chain_option / DotLookupOption")
+    n, bad = 0, []
+    for bi, si, dst, rv, s_ in g.assigns():
+        if "agg" in rv and rv["agg"].get("adt") == DLO and rv["agg"].get("v") == "FunctionCall":
+            vi = [i for i, v in enumerate(a["variants"]) if v["name"] == "FunctionCall"][0]
+            names = [x["name"] for x in a["variants"][vi]["fields"]]
+            if "assume_self_is_on_top" not in names:
+                raise AnchorMissing("DotLookupOption::FunctionCall.assume_self_is_on_top")
+            op = rv["ops"][names.index("assume_self_is_on_top")]
+            l = op_local(op)
+            n += 1
+            k0 = op_const(op)
+            if k0 is not None:
+                if k0.get("int") != "0":
+                    bad.append(s_.get("sp"))
+                continue
+            seen, todo = set(), [l]
+            while todo:
+                x = todo.pop()
+                if x in seen or len(seen) > 40:
+                    continue
+                seen.add(x)
+                for d in rules.defs_of(g, x):
+                    if d[0] == "assign" and "use" in d[4] and not d[3].get("p"):
+                        k = op_const(d[4]["use"])
+                        if k is not None:
+                            if k.get("int") == "1":
+                                bad.append("block %d" % d[1])
+                        elif op_local(d[4]["use"]) is not None:
+                            todo.append(op_local(d[4]["use"]))
+    rep.floor(rule + " method-call links built", n, 1)
+    rep.ob(rule, "a call through a dot chain passes the object only to a method (the flag is false or FunctionType::is_associated_fn)", "violated" if bad else "ok",
+           "the flag is the constant true at %s: a function stored in a field is called with the object as an extra first argument" % bad[:2] if bad else "", g.span, fn=g.path,
+           key=rule + "|flag-source")
